@@ -41,7 +41,7 @@ func newAlphaString[V any](raw []RawKey, vt valType[V]) TreeDriver {
 		name: "alpha/string", family: "alpha",
 		ident:   func(k string) string { return "b:" + k },
 		newTree: func() art.Tree[string, V] { return art.NewAlphaSortedTree[string, V]() },
-		mkVal: vt.mk, valID: vt.id,
+		mkVal:   vt.mk, valID: vt.id,
 		hasPrefix: true, hasRange: true,
 		emptyKey: func() (string, bool) { return "", true },
 	}
@@ -63,7 +63,7 @@ func newAlphaBytes[V any](raw []RawKey, vt valType[V]) TreeDriver {
 		name: "alpha/bytes", family: "alpha",
 		ident:   func(k []byte) string { return "b:" + string(k) },
 		newTree: func() art.Tree[[]byte, V] { return art.NewAlphaSortedTree[[]byte, V]() },
-		mkVal: vt.mk, valID: vt.id,
+		mkVal:   vt.mk, valID: vt.id,
 		hasPrefix: true, hasRange: true,
 		emptyKey: func() ([]byte, bool) { return []byte{}, true },
 		passKey:  cloneB,
@@ -126,7 +126,7 @@ func newUnsigned[K interface {
 		name: name, family: "unsigned",
 		ident:   func(k K) string { return fmt.Sprintf("u:%d", uint64(k)) },
 		newTree: func() art.Tree[K, V] { return art.NewUnsignedBinaryTree[K, V]() },
-		mkVal: vt.mk, valID: vt.id,
+		mkVal:   vt.mk, valID: vt.id,
 		hasRange: true, leafByT: true,
 	}
 	for _, c := range cs {
@@ -154,7 +154,7 @@ func newSigned[K interface {
 		name: name, family: "signed",
 		ident:   func(k K) string { return fmt.Sprintf("i:%d", int64(k)) },
 		newTree: func() art.Tree[K, V] { return art.NewSignedBinaryTree[K, V]() },
-		mkVal: vt.mk, valID: vt.id,
+		mkVal:   vt.mk, valID: vt.id,
 		hasRange: true, leafByT: true,
 	}
 	for _, c := range cs {
@@ -221,7 +221,7 @@ func newFloat64[V any](raw []RawKey, vt valType[V]) TreeDriver {
 		name: "float64", family: "float",
 		ident:   floatIdent64,
 		newTree: func() art.Tree[float64, V] { return art.NewFloatBinaryTree[float64, V]() },
-		mkVal: vt.mk, valID: vt.id,
+		mkVal:   vt.mk, valID: vt.id,
 		hasRange: true, leafByT: true,
 		rangeOK: floatRangeOK,
 	}
@@ -250,7 +250,7 @@ func newFloat32[V any](raw []RawKey, vt valType[V]) TreeDriver {
 			return fmt.Sprintf("f:%08x", math.Float32bits(f))
 		},
 		newTree: func() art.Tree[float32, V] { return art.NewFloatBinaryTree[float32, V]() },
-		mkVal: vt.mk, valID: vt.id,
+		mkVal:   vt.mk, valID: vt.id,
 		hasRange: true, leafByT: true,
 		rangeOK: func(a, b float32) bool { return floatRangeOK(float64(a), float64(b)) },
 	}
@@ -378,7 +378,7 @@ func newCollation[V any](ktype, cname string, raw []RawKey, plainPrefix bool, vt
 			name: name, family: "collation",
 			ident:   func(k []rune) string { return "b:" + string(k) },
 			newTree: func() art.Tree[[]rune, V] { return art.NewCollationSortedTree[[]rune, V]() },
-			mkVal: vt.mk, valID: vt.id,
+			mkVal:   vt.mk, valID: vt.id,
 			hasPrefix: plainPrefix, hasRange: false,
 			passKey: func(k []rune) []rune { return append([]rune{}, k...) },
 		}
@@ -628,7 +628,7 @@ func newCompound[V any](s Schema, raw []RawKey, vt valType[V]) TreeDriver {
 		name: "compound/" + s.String(), family: "compound",
 		ident:   tupleIdent(s),
 		newTree: func() art.Tree[Tuple, V] { return art.NewCompoundTree[Tuple, V](codec) },
-		mkVal: vt.mk, valID: vt.id,
+		mkVal:   vt.mk, valID: vt.id,
 		hasRange: true, leafByT: true,
 	}
 	for _, c := range cs {
